@@ -33,7 +33,7 @@ META = {
         "assignment of the teardown styles {generator, async generator, @contextmanager, @asynccontextmanager, plain} to "
         "their nodes (cached), a second family with one use_cache=False node; outcome in {success, task raises, timeout, "
         "no-result, resolution failure at node j for every j}; propagate in {True, False}; ack type in {when_executed, "
-        "when_saved}; two such messages concurrently with async dependencies gated (all orderings, level 0 and 1). Oracle "
+        "when_saved}; two such messages concurrently with async dependencies gated (all orderings, level 0 and 1), also as two overlapping deliveries of one task id. Oracle "
         "at the end of each message's processing: every opened teardown-style dependency has exactly one CLOSE; CLOSE "
         "order is the reverse of OPEN order; all CLOSEs come after the end of the task function (or the failing open) and "
         "before SAVE and before ACK; the exception seen at teardown is the task's exception iff propagation is on and the "
